@@ -28,11 +28,11 @@ class A:
     refs: Any = field(default_factory=list)
     pairs: Any = field(default_factory=list)
 
-    def n_ge(self, k):
+    def n_ge(self, k=1):
         PredicatePlan.tick()          # user code: counted, and may raise when the fault plan says so
         return self.n >= k
 
-    def n_plus(self, k):
+    def n_plus(self, k=0):
         PredicatePlan.tick()
         return self.n + k
 
@@ -55,11 +55,11 @@ class B:
     refs: Any = field(default_factory=list)
     pairs: Any = field(default_factory=list)
 
-    def n_ge(self, k):
+    def n_ge(self, k=1):
         PredicatePlan.tick()          # user code: counted, and may raise when the fault plan says so
         return self.n >= k
 
-    def n_plus(self, k):
+    def n_plus(self, k=0):
         PredicatePlan.tick()
         return self.n + k
 
